@@ -15,7 +15,7 @@
    [P] partial.  What is NOT proved (covered by the correspondence + the oracles of checks/c07.py only) is listed at
    C07_order_inv_partial. *)
 From AV Require Import Base.Bytes Base.Outcome Hash.HashModel Spec.SpecOps Spec.SpecReal Tree.Heap Tree.Ops Tree.Range Tree.ValidSubs
-  Tree.SpecWF Tree.SpecWFReal Tree.RangeProofsCalc Tree.RangeProofsOps Tree.RangeProofsLoader Tree.RangeProofsReal Tree.RangeProofsParser.
+  Tree.SpecWF Tree.SpecWFReal Tree.RangeProofsCalc Tree.RangeProofsOps Tree.RangeProofsLoader Tree.RangeProofsReal Tree.RangeProofsParser Tree.RangeProofsNamed.
 From AV Require Xml.Parser.
 Open Scope list_scope.
 Open Scope N_scope.
@@ -96,6 +96,28 @@ Theorem C07_create_named_only_in_range :
     calc_element_insert_range T n name v w = Val (OK (lo, hi), w) /\ lo <= pos <= hi /\ item <> [] /\
     find_sub_element T (n_type n) name v = Val (Some (et, ix)) /\ is_named_in_version T et v = Val true.
 Proof. exact create_named_at_only_in_range. Qed.
+
+(* [U] the named iff: with a live parent (its model and version are found, the id counter is fresh) and a reported range,
+   create_named_sub_element_at succeeds exactly when p lies in the range, the item name is not empty, the new type is named in the
+   version, the item name is accepted by the SHORT-NAME specification of the new type in the version, the parent's path
+   exists and parent_path/name is not yet a key of the model's identifiables *)
+Theorem C07_create_named_iff :
+  forall (T : tables) (check_fn : N -> list N -> res bool) (LATEST : N), SpecWF T ->
+  forall (h : id) (n : node) (m v name : N) (item : list N) (pos : N) (w : world) (lo hi : N) (w1 : world),
+  w_nodes w h = Some n -> w_nodes w (w_next w) = None -> w_nodes w (w_next w + 1) = None ->
+  model_of h w = Val (OK m, w) -> min_version LATEST h w = Val (OK v, w) ->
+  calc_element_insert_range T n name v w = Val (OK (lo, hi), w1) ->
+  ((exists (c : id) (w' : world), e_create_named_sub_element_at T check_fn LATEST h name item pos w = Val (OK c, w')) <->
+   lo <= pos <= hi /\
+   item <> [] /\
+   exists (et : etype) (ix : list N) (se : etype) (six : list N) (cs : cdspec) (pp : list N) (x : model),
+     find_sub_element T (n_type n) name v = Val (Some (et, ix)) /\
+     is_named_in_version T et v = Val true /\
+     find_sub_element T et (name_short_name T) v = Val (Some (se, six)) /\
+     chardata_spec T se = Val (Some cs) /\ check_value check_fn (DString item) cs v = Val true /\
+     path_unchecked T n w = Val (OK pp, w) /\
+     nth_opt (w_models w) (N.to_nat m) = Some x /\ assoc_get (pp ++ [47] ++ item) (m_idents x) = None).
+Proof. exact create_named_iff. Qed.
 
 (* [U] list_valid_sub_elements: is_allowed of every listed name is exactly "the range is not an error" ... *)
 Theorem C07_allowed_iff_range :
